@@ -147,13 +147,21 @@ class GcTask(MaintenanceTask):
         Returns:
             True if successful, False otherwise
         """
-        from .gc import garbage_collect
+        from .gc import garbage_collect, get_prune_grace_period
         from .repo import Repo
 
         if self.progress:
             self.progress("Running gc task")
         assert isinstance(self.repo, Repo)
-        garbage_collect(self.repo, auto=self.auto, progress=self.progress)
+        # Honour gc.pruneExpire, as porcelain.gc does (a value that cannot be
+        # parsed makes the task fail rather than prune with another setting).
+        grace_period = get_prune_grace_period(self.repo.get_config())
+        garbage_collect(
+            self.repo,
+            auto=self.auto,
+            grace_period=grace_period,
+            progress=self.progress,
+        )
         return True
 
 
